@@ -623,6 +623,12 @@ def run(F, rep):
     # ------------------------------------------------------------------ F: failing results are explained
     import faillog
     faillog.run_c15(F, rep)
+    # the annotator's look-ups answer from an index: replacing the annotated model invalidates it (clause shared with C13) - otherwise every item of the new
+    # model "does not exist" (null, wrong type) and no issue says why
+    if not getattr(rep, 'nested', False):
+        import core as _core15
+        import c13 as _c13
+        _core15.borrow(F, rep, _c13, only={'C13.R2'})
     # G1: the analysis itself is skipped only because an issue says why
     rep.rule('C15.G1', 'Analyser::analyseModel(model) either runs the internal analysis (which re-creates the AnalyserModel, so type() speaks about THIS model) or has added an issue: every test that guards the call of '
                        'AnalyserImpl::analyseModel is a test of the analyser\'s own issue counters, and every return in front of it follows an addIssue. A further "nothing to analyse" condition leaves the previous call\'s '
